@@ -218,6 +218,9 @@ def gen(rng, tier):
                    init=big, dtor_at_ms=300, watchdog_ms=12000)
     yield sess_scn("stalled-reader-big-reply", [{"hex": "670a", "end": "reset", "close_delay_ms": 3500, "bg": True}, {"hex": "300a"}],
                    init=big, watchdog_ms=12000)
+    # ... and to a client that starts reading only after the handler's first send timed out with a part of the reply written:
+    # the rest has to follow where the first part ended (one well-formed reply)
+    yield sess_scn("late-reader-big-reply", [{"hex": "670a", "read_delay_ms": 2600}], init=big, watchdog_ms=15000)
     # ASan flavour: path lengths, unusable paths, and a sample of sessions / api
     for L in range(100, 121):
         yield {"kind": "path", "flavour": "asan", "tag": "path-server", "who": "server", "len": L}
